@@ -22,6 +22,13 @@ use crate::world::{ref_merkle_root, ref_taproot_output};
 type Census = BTreeMap<&'static str, u64>;
 fn bump(c: &mut Census, k: &'static str) { *c.entry(k).or_insert(0) += 1; }
 
+fn tree_leaves(d: &D) -> usize {
+    match d {
+        D::Tr(_, l) => l.len(),
+        _ => 0,
+    }
+}
+
 fn leaf_pool() -> Vec<T> {
     let pk = |k: &str| T::Check(Box::new(T::PkK(k.into())));
     vec![
@@ -48,6 +55,9 @@ fn leaf_pool() -> Vec<T> {
             T::SortedMultiA(1, vec![pick.0, pick.1])
         },
         pk("K13"),
+        // the other hash kinds (digests that are not byte palindromes)
+        T::AndV(Box::new(T::Verify(Box::new(pk("K61")))), Box::new(T::Hash256("H2".into()))),
+        T::AndV(Box::new(T::Verify(Box::new(pk("K62")))), Box::new(T::AndV(Box::new(T::Verify(Box::new(T::Ripemd160("H3".into())))), Box::new(T::Hash160("H4".into()))))),
     ]
 }
 
@@ -124,6 +134,32 @@ fn check_tree(rep: &Report, cen: &mut Census, ik: &str, shape: &Shape, leaves_t:
         }
         Ok(Err(e)) => viol("full-key-build-refused", e),
         Err(p) => viol("full-key-build-panics", p),
+    }
+    // build 5: the printed concrete descriptor through both descriptor parsers (the one that accepts
+    // secret keys translates keys and hashes itself) commits to the same output
+    if tree_leaves(&d) <= 16 {
+        if let Ok(Ok(b4)) = guard(|| build_desc::<bitcoin::PublicKey>(&d, &crate::keys::PkEnv { form: crate::keys::KeyForm::Compressed })) {
+            let text = b4.to_string();
+            let secp = bitcoin::secp256k1::Secp256k1::new();
+            let via_from_str = guard(|| Descriptor::<miniscript::DescriptorPublicKey>::from_str(&text).map_err(|e| e.to_string()));
+            let via_parse = guard(|| Descriptor::<miniscript::DescriptorPublicKey>::parse_descriptor(&secp, &text).map(|x| x.0).map_err(|e| e.to_string()));
+            for (name, r) in [("from_str", via_from_str), ("parse_descriptor", via_parse)] {
+                match r {
+                    Ok(Ok(x)) => match guard(|| x.at_derivation_index(0).map(|y| y.script_pubkey())) {
+                        Ok(Ok(spk)) => {
+                            if spk != b1.script_pubkey() {
+                                viol("parsed-concrete-build-differs", format!("{} of the printed descriptor commits to {} instead of {}", name, spk, b1.script_pubkey()));
+                            } else {
+                                bump(cen, "parsed_concrete_builds_equal");
+                            }
+                        }
+                        _ => viol("parsed-concrete-build-fails", format!("{}: no output script", name)),
+                    },
+                    Ok(Err(e)) => viol("parsed-concrete-build-refused", format!("{} refuses the printed descriptor: {}", name, e)),
+                    Err(p) => viol("parsed-concrete-build-panics", p),
+                }
+            }
+        }
     }
     // Display -> FromStr
     match guard(|| Descriptor::<String>::from_str(&b2.to_string())) {
